@@ -15,9 +15,10 @@ def cond_index(kw):
     return 0 if kw.get("RingMatchesRingOnly", True) else 1
 
 
-def run_with_plan(inputs, plan=None, grace=0.0):
-    """plan: {"search": {"<input index>:<cond>": "raise"|"timeout"|"uncertain"}, "graph": {"<input index>": "raise"|"timeout"}}
-    (input index = position among the batch's inputs).  Returns a JSON-able record."""
+def run_with_plan(inputs, plan=None, grace=0.0, workers=1):
+    """plan: {"search": {"<input index>:<cond>": "raise"|"timeout"|"uncertain"|"hold:<seconds>"}, "graph": {"<input index>": "raise"|"timeout"}}
+    (input index = position among the batch's inputs; "hold" keeps a finished search job back, so that with workers > 1 -- joblib's
+    threading backend, observers stay in-process -- the jobs of a condition complete in a chosen order).  Returns a JSON-able record."""
     import logging, warnings
     logging.disable(logging.CRITICAL); warnings.filterwarnings("ignore")
     from rdkit import RDLogger, Chem
@@ -54,6 +55,9 @@ def run_with_plan(inputs, plan=None, grace=0.0):
     def safe(data_dict, **kw):
         r = o_safe(data_dict, **kw)
         pos = state["id2pos"].get(data_dict.get("id"))
+        act = sp.get("%s:%d" % (pos, cond_index(kw))) or ""
+        if act.startswith("hold:"):
+            time.sleep(float(act[5:]))
         jobs["%s:%d" % (pos, cond_index(kw))] = {"id": r.get("id"), "mcs_results": list(r.get("mcs_results", [])),
                                                   "sorted_reactants": list(r.get("sorted_reactants", [])), "issue": r.get("issue")}
         return r
@@ -103,7 +107,13 @@ def run_with_plan(inputs, plan=None, grace=0.0):
     st = {}
     t0 = time.time()
     try:
-        rows = pipe.balancer(0).rebalance(list(inputs), output_dict=True, stats=st)
+        if workers > 1:
+            import joblib
+            from synrbl import Balancer
+            with joblib.parallel_backend("threading", n_jobs=workers):
+                rows = Balancer(n_jobs=workers).rebalance(list(inputs), output_dict=True, stats=st)
+        else:
+            rows = pipe.balancer(0).rebalance(list(inputs), output_dict=True, stats=st)
         err = None
     except Exception as e:
         rows, err = None, "%s: %s" % (type(e).__name__, e)
@@ -127,12 +137,12 @@ def run_with_plan(inputs, plan=None, grace=0.0):
         for r in rows or []:
             again.append({"reaction": r.get("reaction"), "issue": r.get("issue") if isinstance(r.get("issue"), str) else None, "solved": bool(r.get("solved"))})
         late = [a for a, b in zip(again, out) if (a["reaction"], a["issue"], a["solved"]) != (b["reaction"], b["issue"], b["solved"])]
-    return {"inputs": list(inputs), "plan": plan, "rows": out, "stats": st, "jobs": jobs, "graph_jobs": glog, "after_find": snap.get("after_find"),
+    return {"inputs": list(inputs), "plan": plan, "workers": workers, "rows": out, "stats": st, "jobs": jobs, "graph_jobs": glog, "after_find": snap.get("after_find"),
             "selected": snap.get("_selected"), "solved_before": state.get("solved_before"), "error": err, "late_changes": late, "wall": time.time() - t0}
 
 
 def run_many(items, procs=None):
-    """items: list of (inputs, plan, grace)"""
+    """items: list of (inputs, plan, grace[, workers])"""
     procs = procs or min(NPROC - 2, 12)
     if len(items) <= 1:
         return [run_with_plan(*it) for it in items]
